@@ -14,7 +14,7 @@ import (
 func init() {
 	register(&Property{
 		ID:    "C09",
-		Rules: []string{"C09-R1", "C09-R2", "C09-R3", "C09-R4", "C09-R5", "C09-R6", "C09-R7", "C09-R8", "C10-R2"},
+		Rules: []string{"C09-R1", "C09-R2", "C09-R3", "C09-R4", "C09-R5", "C09-R6", "C09-R7", "C09-R8", "C10-R2", "C17-R4"},
 		Explain: "Decides how malformed entries reach the user: C09-R1 the line number is a loop-carried counter with 0 on entry and the same φ+1 on every back edge of the Scan loop (so blank, comment and note lines are counted); " +
 			"C09-R2 the quoted line is the raw Scanner.Text() result; C09-R3 every ParseCallback of the tree, given an error, stops with an error deriving from it or prints it and continues; " +
 			"C09-R4 lint writes its success message exactly when no malformed line was reported (and not silent); " +
@@ -31,6 +31,8 @@ func init() {
 			ruleLintVerdict(c, "C09-R4")
 			ruleErrorText(c, "C09-R6")
 			ruleFileReaders(c, "C09-R8")
+			// lint's lines reach the output: a writer lint buffers them in is flushed before it reports success
+			ruleLocalWriters(c, "C17-R4")
 			// "every command that reads the file fails": what the parser returns (a positioned error a callback handed
 			// back, like a read error) reaches the command's result on every path
 			runErrorFlow(c, "C10-R2", func(cal *ssa.Function, ci ssa.CallInstruction) (bool, string) {
